@@ -969,11 +969,12 @@ func ExtractMeasuredDataCSV(scannerObserv *bufio.Scanner, g *GlobalVarsMain, Fid
 	tokens := Explode(headline, []rune{',', ';'})
 	headers := make(map[MeasurementHeader]int)
 
-	for kHeader, vHeader := range measurementHeaderNames {
-		for i, token := range tokens {
-			if token == kHeader {
+	// columns in file order: if a file carries two spellings of one quantity, the first column is used
+	// (ranging over the name table would pick one of them at random)
+	for i, token := range tokens {
+		if vHeader, ok := measurementHeaderNames[token]; ok {
+			if _, seen := headers[vHeader]; !seen {
 				headers[vHeader] = i
-				break
 			}
 		}
 	}
